@@ -6,3 +6,4 @@ import SquidModel.Properties.C63
 #print axioms SquidModel.C63.max_forwards_zero_answered_locally
 #print axioms SquidModel.C63.forwarded_value_is_n_minus_1
 #print axioms SquidModel.C63.forwarded_values_nonneg
+#print axioms SquidModel.C63.own_via_never_forwarded_any_port
